@@ -4,6 +4,7 @@ import WcModel.Driver.Tidy
 import WcModel.Driver.Lists
 import WcModel.Driver.Glob
 import WcModel.Driver.WcWalk
+import WcModel.Driver.Pathlib
 /-
   wcdriver: one request per line on stdin, one reply per line on stdout.
   `<cmd> <field> <field> …`; unknown or malformed requests answer `bad-op`.
@@ -30,7 +31,10 @@ def dispatch (cmd : String) (args : List String) : Option String :=
     | none =>
       match Driver.Glob.handlers.lookup cmd with
       | some h => h args
-      | none => (Driver.WcWalk.handlers.lookup cmd).bind (fun h => h args)
+      | none =>
+        match Driver.WcWalk.handlers.lookup cmd with
+        | some h => h args
+        | none => (Driver.Pathlib.handlers.lookup cmd).bind (fun h => h args)
 
 partial def loop (hin hout : IO.FS.Stream) : IO Unit := do
   let line ← hin.getLine
